@@ -317,15 +317,26 @@ macro_rules! partial_bit_case {
 // @verif prop=C07 kernel=K4 tiers=quick,thorough timeout=1800 unwind=1 mem=12
 // @verif what=partial access on bit-string values: writing bit n / byte n / word n / dword n of a BYTE/WORD/DWORD/LWORD changes exactly the addressed bits (little-endian numbering), read after write returns the written part, an out-of-range index is IndexOutOfBounds (never a shift overflow)
 // @verif fns=value::partial_access::{read_partial_access,write_partial_access}
-// @verif bound=every target value, every index 0..=255, every part value; 10 (target, part) shapes: .%X on BYTE/WORD/DWORD/LWORD, .%B on WORD/DWORD/LWORD, .%W on DWORD/LWORD, .%D on LWORD
+// @verif bound=every target value, every index 0..=255, every bit value; .%X on BYTE/WORD/DWORD/LWORD
 #[kani::proof]
 fn c07_partial_access_locality() {
     let k: u8 = kani::any();
-    match k % 10 {
+    match k % 4 {
         0 => partial_bit_case!(Byte, u8, 8), 1 => partial_bit_case!(Word, u16, 16),
-        2 => partial_bit_case!(DWord, u32, 32), 3 => partial_bit_case!(LWord, u64, 64),
-        4 => partial_case!(Word, u16, Byte, Byte, u8, 8, 2), 5 => partial_case!(DWord, u32, Byte, Byte, u8, 8, 4),
-        6 => partial_case!(LWord, u64, Byte, Byte, u8, 8, 8), 7 => partial_case!(DWord, u32, Word, Word, u16, 16, 2),
-        8 => partial_case!(LWord, u64, Word, Word, u16, 16, 4), _ => partial_case!(LWord, u64, DWord, DWord, u32, 32, 2),
+        2 => partial_bit_case!(DWord, u32, 32), _ => partial_bit_case!(LWord, u64, 64),
+    }
+}
+
+// @verif prop=C07 kernel=K4 tiers=quick,thorough timeout=1800 unwind=1 mem=12
+// @verif what=partial access on bit-string values, byte / word / dword parts: writing part n changes exactly the addressed bits (little-endian numbering), read after write returns the written part, an out-of-range index is IndexOutOfBounds
+// @verif fns=value::partial_access::{read_partial_access,write_partial_access}
+// @verif bound=every target value, every index 0..=255, every part value; 6 shapes: .%B on WORD/DWORD/LWORD, .%W on DWORD/LWORD, .%D on LWORD
+#[kani::proof]
+fn c07_partial_access_locality_parts() {
+    let k: u8 = kani::any();
+    match k % 6 {
+        0 => partial_case!(Word, u16, Byte, Byte, u8, 8, 2), 1 => partial_case!(DWord, u32, Byte, Byte, u8, 8, 4),
+        2 => partial_case!(LWord, u64, Byte, Byte, u8, 8, 8), 3 => partial_case!(DWord, u32, Word, Word, u16, 16, 2),
+        4 => partial_case!(LWord, u64, Word, Word, u16, 16, 4), _ => partial_case!(LWord, u64, DWord, DWord, u32, 32, 2),
     }
 }
